@@ -293,9 +293,8 @@ pub fn gen_case(verif_seed: u64, idx: u64) -> ThreadReplay {
     let cfg = Cfg { page: *rng.pick(&[4096usize, 8192]), cache: *rng.pick(&[48usize, 64, 10000]), pool: rng.range(1, 4) as usize, min_keys: 3, siblings: rng.range(1, 2) as usize };
     let clients = rng.range(2, 4) as u32;
     let ops = rng.range(2, 6) as u32;
-    // open finding T1: two threads inserting into the same table lose acknowledged rows, so every
-    // client writes its own table; reads go to any table
-    let shared_table = std::env::var("AXSIM_NOGUARD").map(|g| g.contains("concurrent_inserts_into_one_table")).unwrap_or(false) && rng.chance(50);
+    // half of the runs: all clients insert into one table (finding T1, repaired); reads go to any table
+    let shared_table = rng.chance(50);
     let read_tables: Vec<Vec<u32>> = (0..clients).map(|_| (0..ops).map(|_| rng.below(clients as u64) as u32).collect()).collect();
     ThreadReplay {
         property: "C14".into(),
